@@ -384,9 +384,13 @@ Theorem C15_sort_mono_frag : forall g m a b oa ob, sort_mapping g = Ok m -> NoDu
   oa < ob -> map_get m a < map_get m b.
 Proof. exact sort_mono_frag. Qed.
 
-(** the class resolve() stores, read off the cut: every new tuple is about four atoms lx - ax = ay - ly of the cut, and when
-    neither ligand is cut off from its anchor its class is the geometric class of the marks as written - or the opposite
-    when the ligand of the second-enumerated anchor is written before it (open class second_anchor_ligand_lower) *)
+(** the class resolve() stores, read off the cut: every new tuple is about four atoms lx - ax = ay - ly of the cut ((lx, ax)
+    on the first-enumerated anchor), and its class is pysmiles' table applied to the POSITIONS of the atoms in the
+    concatenation of the parts ([wb] = comes earlier; the renumbering keeps the position order of any two atoms of the cut).
+    Inside one part the position order is the written order: the geometric class of the marks as written, or the opposite
+    when the ligand of the second-enumerated anchor is written before it (open class second_anchor_ligand_lower); for a
+    ligand cut off from its anchor the position order is the order of the PARTS in the base graph (the root cause of the
+    open classes cut_off_ligand_key_order / cut_off_ligand_conflict_error) *)
 Theorem C15_returned_class_geom : forall C, wf_cut C -> forall fd, templates_ok C fd -> wf_dict fd -> forall B, is_base C B ->
   heavy_payload C -> numeric_orders C -> forall tok,
   (forall name xs T i x n, In (name, xs) (c_parts C) -> fd_get name fd = Some T ->
@@ -403,8 +407,7 @@ Theorem C15_returned_class_geom : forall C, wf_cut C -> forall fd, templates_ok 
       lx <> ax /\ lx <> ay /\ ly <> ay /\ ly <> ax /\
       (v = ez_tuple (map_get m (phi C lx)) (map_get m (phi C ax)) (map_get m (phi C ay)) (map_get m (phi C ly)) c \/
        v = ez_tuple (map_get m (phi C ly)) (map_get m (phi C ay)) (map_get m (phi C ax)) (map_get m (phi C lx)) c) /\
-      (owner C lx = owner C ax -> owner C ly = owner C ay ->
-         c = class_val (if wb C ly ay then negb (geom C lx ax ay ly tx ty) else geom C lx ax ay ly tx ty)).
+      c = class_val (if wb C ly ay then negb (geom C lx ax ay ly tx ty) else geom C lx ax ay ly tx ty).
 Proof. exact returned_class_geom. Qed.
 
 (** OUTSIDE THE THREE OPEN CLASSES (no ligand cut off, both ligands written after their anchors): the geometric class *)
